@@ -105,6 +105,37 @@ func C13(c *core.Ctx) {
 				}
 				return true
 			})
+			// the prefix the common routine trims is the identity's country at that moment: a
+			// country assigned afterwards (GR → EL) leaves its own prefix in the code for the next
+			// pass to trim — normalising twice differs from normalising once
+			late := ""
+			ast.Inspect(fd.Decl.Body, func(m ast.Node) bool {
+				as, ok := m.(*ast.AssignStmt)
+				if !ok || as.Pos() < call.End() {
+					return true
+				}
+				for i, l := range as.Lhs {
+					if core.IsFieldOfVar(info, l, idv, "Country") {
+						// the new country's prefix was trimmed already if it was given as an alternative code
+						covered := false
+						if len(as.Rhs) == len(as.Lhs) {
+							if tv, ok := info.Types[as.Rhs[i]]; ok && tv.Value != nil {
+								for _, alt := range call.Args[1:] {
+									if av, ok := info.Types[alt]; ok && av.Value != nil && av.Value.ExactString() == tv.Value.ExactString() {
+										covered = true
+									}
+								}
+							}
+						}
+						if !covered {
+							late = p.Rel(as.Pos())
+						}
+					}
+				}
+				return true
+			})
+			c.Ob("C13-R3", fd.Name()+"#country-before-common", call.Pos(), late == "",
+				"the identity's country is assigned at "+late+", after tax.NormalizeIdentity has trimmed the prefix of the country it had before: a code written with the final country's prefix keeps it on the first normalisation and loses it on the second (normalisation is not idempotent)")
 			c.Ob("C13-R3", fd.Name()+"#common-first", call.Pos(), early == "",
 				"the code is rewritten at "+early+" before tax.NormalizeIdentity has run: the regime's rewriting sees the raw spelling (lower case, separators, prefixes), so equivalent spellings no longer normalise to the same code and normalising twice differs from normalising once")
 		}
